@@ -105,6 +105,14 @@ def gen(c):
         add(s, "random")
         if rnd.random() < 0.2:
             add(s + rnd.choice([",", "]", " ", "x", "}", "\n"]), "terminated")   # must consume exactly the numeral
+    # (i) the written exponent is far outside the range of a double but leading fraction zeros / trailing integer zeros bring the value back
+    #     into it (the exponent and the digit positions are combined only after both are read)
+    for S in (25, 60, 120, 330, 360, 420, 700, 1100):
+        for _ in range(6 if c.thorough else 2):
+            d = str(rnd.randint(1, 9)) + "".join(rnd.choice("0123456789") for _ in range(rnd.choice([0, 2, 16, 19, 28])))
+            T = rnd.choice([rnd.randint(-322, -300), rnd.randint(-30, 30), rnd.randint(280, 308), rnd.randint(-300, 300)])     # decimal exponent of the value
+            add("%s0.%s%se%s%d" % (rnd.choice(["", "-"]), "0" * S, d, rnd.choice(["", "+"]), T + S + 1), "shifted")                # 0.000..0d e+(big)
+            add("%s%s%se%d" % (rnd.choice(["", "-"]), d, "0" * S, T - S - (len(d) - 1)), "shifted")                                 # d000..0 e-(big)
     # (h) malformed shapes
     for t in ["", "-", "+", ".", "-.", "00", "01", "-01", "1..", "1.2.3", "1e", "1e+", "1e-", "1.e", "e5", ".e5", "1e5.5", "--1", "+-1", "1ee5", "1e5e5", "abc", "1.2e", "1.2e+"]:
         add(t, "malformed")
